@@ -39,6 +39,14 @@ func (s *attackSim) run(keep bool) {
 	// the options in a tape-chosen order: none of them may depend on its position
 	opts := []func(*vegeta.Attacker){vegeta.Client(client), vegeta.Workers(uint64(cfg.W)), vegeta.MaxWorkers(uint64(cfg.M)), vegeta.MaxBody(cfg.MaxBody)}
 	neutral := ""
+	if s.tape.Prob(1, 4) {
+		// a client timeout: requests that are still in the transport (or whose body is still being read) when it
+		// fires fail, which changes nothing in how hits are counted, ordered, stamped and timed
+		d := []time.Duration{time.Millisecond, 50 * time.Millisecond, time.Second, time.Hour}[s.tape.Choose(4)]
+		opts = append(opts, vegeta.Timeout(d))
+		neutral += fmt.Sprintf(" timeout=%v", d)
+		s.stats["probe.client-timeout-set"]++
+	}
 	if s.tape.Prob(1, 3) {
 		// the simulated transport behind a real *http.Transport (registered as its handler of the http scheme), so
 		// that the options that configure the transport can be applied as well: none of them has a say in how
